@@ -1,18 +1,24 @@
-(* C07 - keys of one AirPlay 2 session: "never reused under a key" is per KEY, not per cipher
-   object.  Gen.v (re-emitted from /repo on every run by harness/c07.py gen(), by driving the
-   real call sites AirPlayV2._setup_base / setup_audio_stream, AP2Session.setup_remote_control
-   and verify_connection with a recording verifier) lists, for every cipher object of the session
-   that encrypts, the (salt, info) pair its out-key was derived with.  Finite obligation: these
-   pairs are pairwise distinct; hence, for a key-derivation function that is injective on
-   (salt, info) for the session's shared secret (an idealisation of HKDF-SHA512, stated as a
-   premise), no two encrypting cipher objects of a session hold the same key - so the per-object
-   freshness theorems of Properties.v add up to freshness per key. *)
+(* C07 - keys over the LIFETIME of an AirPlay 2 session / protocol object: "never reused under a
+   key" is per KEY, not per cipher object, and not per setup.  Gen.v (re-emitted from /repo on
+   every run by harness/c07.py gen(): the real call sites AirPlayV2.setup / play_url / teardown,
+   AP2Session.setup_remote_control and verify_connection are driven with a recording verifier whose
+   shared secret is fresh for every pair-verify) lists, for every cipher object that encrypted
+   during the scenario, which pair-verify's secret and which (salt, info) its out-key came from.
+
+   Finite obligation: these triples are pairwise distinct.  Hence, for a key-derivation function
+   that is injective on (secret, salt, info) - an idealisation of HKDF-SHA512 over fresh
+   X25519 secrets, stated as a premise - no two cipher objects ever hold the same out-key: a new
+   setup derives a FRESH key (new pair-verify or new salt/info); the only way to keep using a key
+   is to keep using the same cipher object, whose counter continues (C07_nonces_fresh_step).  So
+   the per-object freshness theorems of Properties.v add up to freshness per key over the whole
+   lifetime. *)
 From Coq Require Import List NArith Bool.
 From PV Require Import Common.Cases C07.Gen.
 Import ListNotations.
 
-Definition deriv := (list N * list N)%type.
-Definition deriv_beq (a b : deriv) : bool := bytes_beq (fst a) (fst b) && bytes_beq (snd a) (snd b).
+Definition deriv := (N * (list N * list N))%type.
+Definition deriv_beq (a b : deriv) : bool :=
+  N.eqb (fst a) (fst b) && bytes_beq (fst (snd a)) (fst (snd b)) && bytes_beq (snd (snd a)) (snd (snd b)).
 
 Fixpoint nodupb (l : list deriv) : bool :=
   match l with
@@ -22,11 +28,11 @@ Fixpoint nodupb (l : list deriv) : bool :=
 
 Lemma deriv_beq_eq a b : deriv_beq a b = true <-> a = b.
 Proof.
-  unfold deriv_beq. destruct a as [a1 a2], b as [b1 b2]. cbn [fst snd].
-  rewrite andb_true_iff.
+  unfold deriv_beq. destruct a as [a0 [a1 a2]], b as [b0 [b1 b2]]. cbn [fst snd].
+  rewrite !andb_true_iff.
   assert (E : forall x y, bytes_beq x y = true <-> x = y).
   { intros x y. apply list_beq_eq. intros u v. apply N.eqb_eq. }
-  rewrite !E. split; [intros [-> ->]; reflexivity | intro H; inversion H; auto].
+  rewrite !E, N.eqb_eq. split; [intros [[-> ->] ->]; reflexivity | intro H; inversion H; auto].
 Qed.
 
 Lemma nodupb_NoDup l : nodupb l = true -> NoDup l.
@@ -48,24 +54,35 @@ Proof.
   - apply IH. intros a b Ha Hb. apply Hinj; simpl; auto.
 Qed.
 
-(* RAOP streaming session (AirPlayV2): control channel, event channel, audio packets *)
-Theorem C07_session_raop_out_keys_distinct : forall (K : Type) (kdf : deriv -> K),
-  (forall a b, In a out_derivs_raop -> In b out_derivs_raop -> kdf a = kdf b -> a = b) ->
-  NoDup (map kdf out_derivs_raop).
-Proof.
-  intros K kdf Hinj. apply NoDup_map_inj; [exact Hinj|]. apply nodupb_NoDup. vm_compute. reflexivity.
-Qed.
+Definition keys_distinct (l : list deriv) : Prop :=
+  forall (K : Type) (kdf : deriv -> K),
+    (forall a b, In a l -> In b l -> kdf a = kdf b -> a = b) -> NoDup (map kdf l).
+
+Lemma keys_distinct_by_computation l : nodupb l = true -> keys_distinct l.
+Proof. intros H K kdf Hinj. apply NoDup_map_inj; [exact Hinj|]. now apply nodupb_NoDup. Qed.
+
+(* one RAOP streaming session: control channel, event channel, audio packets *)
+Theorem C07_session_raop_out_keys_distinct : keys_distinct out_derivs_raop.
+Proof. apply keys_distinct_by_computation. vm_compute. reflexivity. Qed.
 Print Assumptions C07_session_raop_out_keys_distinct.
 
+(* ONE AirPlayV2 object used for three streams in a row: setup, packets, teardown, setup, ... *)
+Theorem C07_session_raop_resetup_out_keys_distinct : keys_distinct out_derivs_raop_resetup.
+Proof. apply keys_distinct_by_computation. vm_compute. reflexivity. Qed.
+Print Assumptions C07_session_raop_resetup_out_keys_distinct.
+
+(* play_url, teardown, then an audio stream on the same object *)
+Theorem C07_session_raop_playurl_out_keys_distinct : keys_distinct out_derivs_raop_playurl.
+Proof. apply keys_distinct_by_computation. vm_compute. reflexivity. Qed.
+Print Assumptions C07_session_raop_playurl_out_keys_distinct.
+
 (* remote control session (AP2Session): control channel, event channel, data stream channel *)
-Theorem C07_session_ap2_out_keys_distinct : forall (K : Type) (kdf : deriv -> K),
-  (forall a b, In a out_derivs_ap2 -> In b out_derivs_ap2 -> kdf a = kdf b -> a = b) ->
-  NoDup (map kdf out_derivs_ap2).
-Proof.
-  intros K kdf Hinj. apply NoDup_map_inj; [exact Hinj|]. apply nodupb_NoDup. vm_compute. reflexivity.
-Qed.
+Theorem C07_session_ap2_out_keys_distinct : keys_distinct out_derivs_ap2.
+Proof. apply keys_distinct_by_computation. vm_compute. reflexivity. Qed.
 Print Assumptions C07_session_ap2_out_keys_distinct.
 
-(* each session really has several encrypting objects (the obligation is not about an empty list) *)
-Example C07_session_nonempty : (2 <= length out_derivs_raop)%nat /\ (2 <= length out_derivs_ap2)%nat.
-Proof. vm_compute. split; repeat constructor. Qed.
+(* the obligations are about several objects, and the re-setup scenario about several setups *)
+Example C07_session_nonempty :
+  (3 <= length out_derivs_raop)%nat /\ (9 <= length out_derivs_raop_resetup)%nat /\
+  (5 <= length out_derivs_raop_playurl)%nat /\ (3 <= length out_derivs_ap2)%nat.
+Proof. vm_compute. repeat split; repeat constructor. Qed.
